@@ -8,6 +8,7 @@ import traceback
 from .. import corpus
 from ..build import Build, BuildError
 from ..core import Result
+from ..values import hints_of
 from ..values import BP, Gen, tree_to_json
 
 PROP = "C18"
@@ -78,7 +79,7 @@ def structure(b: Build):
     out = {"messages": {}, "enums": {}, "services": {}}
     for mi in b.user_messages():
         c = b.bp_class(mi.full_name)
-        hints = c._type_hints()
+        hints = hints_of(c)
         fl = {}
         for f in dataclasses.fields(c):
             meta = f.metadata.get("betterproto")
